@@ -132,6 +132,20 @@ class PAttrs:
     def __setitem__(self, key, value):
         self.create(key, value)
 
+    def modify(self, key, value):
+        """h5py semantics: keep the attribute's existing dtype and cast the new value to it"""
+        if key not in self._r:
+            return self.create(key, value)
+        if has_sym(value):
+            if self._p + key not in self._s:
+                old = real_np.asarray(self._r[key])
+                if old.dtype.kind in "iu" and not isinstance(value, (list, tuple, nd.ndarray, nd.RecScalar)):
+                    value = nd.cast_list([value], None, nd.as_dtype(old.dtype))[0]
+            self._s[self._p + key] = value
+            return None
+        self._s.pop(self._p + key, None)
+        return self._r.modify(key, to_real(value))
+
     def __getitem__(self, key):
         if self._p + key in self._s:
             return self._s[self._p + key]
